@@ -59,6 +59,20 @@ FRAMES = [
     "def gen():\n    {v} = 0\n    while {v} < 3:\n        yield {v}\n        {v} += 1\n\n\nprint(list(gen()), [({w} := 5), {w}] if True else 0)\n",
 ]
 
+FRAMES += [
+    # class members reached through attributes / keywords, in classes that are NOT at module level, and members bound by unpacking
+    "def make():\n    class Node:\n        {v} = 3\n\n        def {w}(self):\n            return self.{v} + 1\n\n    return Node()\n\n\nprint(make().{w}(), make().{v})\n",
+    "class Outer:\n    class Inner:\n        {v} = 5\n\n        def {w}(self):\n            return 1\n\n    def get(self):\n        return self.Inner.{v} + self.Inner().{w}()\n\n\nprint(Outer().get())\n",
+    "import dataclasses\n\n\ndef make_point():\n    @dataclasses.dataclass\n    class Point:\n        {v}: int = 0\n        {w}: int = 1\n\n    return Point({v}=4)\n\n\np = make_point()\nprint(p.{v}, p.{w})\n",
+    "import dataclasses\n\n\n@dataclasses.dataclass\nclass Point:\n    {v}: int = 0\n    {w}: int = 1\n\n\np = Point({v}=4, {w}=5)\nprint(p.{v} + p.{w})\n",
+    "class Limits:\n    {v}, {w} = 0, 10\n    [{u}] = [7]\n\n\nprint(Limits.{v}, Limits.{w}, Limits.{u})\n",
+    "class Config:\n    {v} = 1\n\n    @classmethod\n    def {w}(cls):\n        return cls.{v} + 1\n\n\nprint(Config.{w}(), getattr(Config, '{v}'))\n",
+    "def factory():\n    def {v}(x):\n        return x + 1\n\n    {w} = {v}\n    return {w}(1), {v}(2)\n\n\nprint(factory())\n",
+    "class Base:\n    def {v}(self):\n        return 1\n\n\nclass Child(Base):\n    def {w}(self):\n        return self.{v}() + 1\n\n\nprint(Child().{w}(), Child().{v}())\n",
+    "import collections\n\n{v} = collections.namedtuple('{v}', ['{w}', '{u}'])\nitem = {v}({w}=1, {u}=2)\nprint(item.{w} + item.{u})\n",
+    "def f():\n    {v} = 1\n\n    class Local:\n        {w} = {v} + 1\n\n        def get(self):\n            return {v}, self.{w}\n\n    return Local().get()\n\n\nprint(f())\n",
+]
+
 RULES = ["fixes.align_variable_names_with_convention", "fixes.undefine_unused_variables", "fixes.remove_duplicate_functions", "object_oriented.move_staticmethod_static_scope", "format_code"]
 
 
